@@ -28,6 +28,7 @@ Adv == l' = l + 1 /\ tid' = tid
 Is(op) == l <= Len(T) /\ Ev.op = op
 
 TNew == /\ Is("new") /\ Adv
+        /\ Check(tid, l, "P.route.exists", Ev.kind \o ":" \o Ev.res, Ev.res = "ok")   \* every object of the family can be built
         /\ Check(tid, l, "H.new", "", Ev.kind \in {"output", "section", "io", "iosec"})
         /\ kind' = Ev.kind /\ dec' = Ev.dec
         /\ indent' = [o \in 1..NOuts(Ev.kind) |-> 0]
@@ -35,11 +36,13 @@ TNew == /\ Is("new") /\ Adv
 
 TEnter == /\ Is("enter") /\ Adv /\ UNCHANGED <<kind, dec>>
           /\ Check(tid, l, "H.enter", "", Ev.level \in Levels /\ Ev.mode \in {"set", "incr"} /\ Ev.n \in Nat)
+          /\ Check(tid, l, "P.indent.scope", "enter:" \o Ev.res, Ev.res = "ok")      \* every scope of the family can be opened
           /\ Enter(Ev.level, Ev.mode, Ev.n)
           /\ Note(tid, l, "A.indent", Ev.ind = indent')
 
 TExit == /\ Is("exit") /\ Adv /\ UNCHANGED <<kind, dec>>
          /\ Check(tid, l, "H.exit", "", scopes # <<>>)
+         /\ Check(tid, l, "P.indent.scope", "exit:" \o Ev.res, Ev.res = "ok")        \* ... and left
          /\ Exit(Ev.how)
          /\ Note(tid, l, "A.indent", Ev.ind = indent')
          /\ Note(tid, l, "A.exit.propagates", ~Ev.swallowed)
